@@ -55,7 +55,9 @@ type exec struct {
 	evs      []string
 }
 
-func (e *exec) fail(format string, a ...any) { e.problems = append(e.problems, fmt.Sprintf(format, a...)) }
+func (e *exec) fail(format string, a ...any) {
+	e.problems = append(e.problems, fmt.Sprintf(format, a...))
+}
 
 func sleepUntil(d time.Duration) {
 	vmc.AddWake(vmc.Epoch.Add(d), "scenario")
@@ -89,17 +91,7 @@ func (e *exec) Body() {
 
 // writesAt returns (virtual time, frame) of every frame written to a fake conn.
 func writesAt(c *vnet.FakeConn) ([]time.Duration, []*ref.Frame, string) {
-	var ts []time.Duration
-	for _, io := range c.IO {
-		if io.Write {
-			ts = append(ts, io.At.Sub(vmc.Epoch))
-		}
-	}
-	frames, prob := sx.ParseWire(c.Written)
-	if prob == "" && len(ts) != len(frames) {
-		prob = "write records and frames differ"
-	}
-	return ts, frames, prob
+	return sx.WireTimed(c)
 }
 
 func (e *exec) hb() {
@@ -198,6 +190,8 @@ var sources = []source{
 	{1, 1, 1, 3, true},  // same ids on the other channel
 	{0, 2, 1, 12, true}, // PX4
 	{0, 1, 1, 3, false}, // not a heartbeat
+	{0, 1, 1, 12, true}, // the ids of the first source with another autopilot type: must neither trigger nor consume the sender's first-heartbeat slot
+	{0, 10, 1, 3, true}, // ArduPilot sharing the node's own system id (companion computer setup)
 }
 
 var gaps = []time.Duration{0, 12 * time.Second, 29990 * time.Millisecond, 30010 * time.Millisecond}
@@ -311,6 +305,7 @@ func (e *exec) sr() {
 		}
 		for g := 0; g+7 <= len(frames); g += 7 {
 			var tsys, tcomp byte
+			var streams map[uint64]bool
 			for j := 0; j < 7; j++ {
 				f := frames[g+j]
 				if f.ID != 66 {
@@ -323,9 +318,16 @@ func (e *exec) sr() {
 				for fi, fd := range d.Fields {
 					v[fd.Name] = vals[fi].Bits[0]
 				}
-				wantStream := []uint64{1, 2, 3, 6, 10, 11, 12}[j]
-				if v["req_stream_id"] != wantStream || v["req_message_rate"] != 7 || v["start_stop"] != 1 {
-					e.fail("c%d: request %d of the group is %v, want stream %d rate 7 start 1", ci, j, v, wantStream)
+				// the statement names the set of seven streams, not an order
+				if j == 0 {
+					streams = map[uint64]bool{}
+				}
+				if streams[v["req_stream_id"]] {
+					e.fail("c%d: stream %d requested twice in one group", ci, v["req_stream_id"])
+				}
+				streams[v["req_stream_id"]] = true
+				if !map[uint64]bool{1: true, 2: true, 3: true, 6: true, 10: true, 11: true, 12: true}[v["req_stream_id"]] || v["req_message_rate"] != 7 || v["start_stop"] != 1 {
+					e.fail("c%d: request %d of the group is %v, want one of the streams 1,2,3,6,10,11,12 at rate 7 start 1", ci, j, v)
 				}
 				if j == 0 {
 					tsys, tcomp = byte(v["target_system"]), byte(v["target_component"])
